@@ -176,6 +176,13 @@ Example C16_example_contract :
            [0; 21; 0; 3; 4; 7; 8; 11; 12; 16; -1; -1; 17; 21]%Z = true.
 Proof. vm_compute. reflexivity. Qed.
 
+(* the member name of numbered group i is strconv.Itoa(i) for EVERY i (numbered_members uses
+   Base.Num.itoa, no table of small indices); the boundary numerals, by computation *)
+Example C16_example_index_names :
+  map (fun i => itoa (Z.of_nat i)) [0; 9; 10; 11; 99; 100; 101; 110; 449; 450; 1000]%nat
+  = map of_str ["0"; "9"; "10"; "11"; "99"; "100"; "101"; "110"; "449"; "450"; "1000"]%string.
+Proof. vm_compute. reflexivity. Qed.
+
 (* the reader is strict: leading zero, digitless fraction, raw control byte, trailing comma,
    missing colon, trailing garbage, misspelt literal, unknown escape are all rejected *)
 Example C16_example_reader_strict :
